@@ -8,4 +8,5 @@ import numpy, pandas, scipy, pysam  # noqa: F401
 assert hasattr(os, "fork")
 print("setup ok: python", sys.version.split()[0], "pandas", pandas.__version__, "numpy", numpy.__version__, "pysam", pysam.__version__)
 PY
+command -v tlc >/dev/null || { echo "setup: tlc (TLA+ model checker) not on PATH: C03/C09 cross-validate their schedule sets with it" >&2; exit 1; }
 mkdir -p evidence replays
